@@ -5872,7 +5872,9 @@ impl<'a> Tyck<'a> for TyEnvT<su::TermId> {
                     std::panic::Location::caller(),
                 )?;
                 let (binder, binder_ty) = {
-                    let ss::Type::App(ret_app_body_ty) = tycker.type_filled_k(&binder_ty)? else {
+                    // Any other type application `F B` would bind the thunk of the
+                    // body at a type that need not be a thunk type at all.
+                    let Some(body_ty) = binder_ty.destruct_thk_app(tycker) else {
                         tycker.err_k(
                             TyckError::TypeExpected {
                                 expected: "a thunk type for the fix binder".to_string(),
@@ -5881,7 +5883,6 @@ impl<'a> Tyck<'a> for TyEnvT<su::TermId> {
                             std::panic::Location::caller(),
                         )?
                     };
-                    let ss::App(_ret_ty, body_ty) = ret_app_body_ty;
                     (binder, body_ty)
                 };
                 let body_out_ann = TyEnvT::new(binder_elaboration.info.clone(), body)
